@@ -504,7 +504,7 @@ class ProductSpaceOperator(Operator):
 
             for i in range(len(self.domain)):
                 if ops[i] is None:
-                    ops[i] = ZeroOperator(self.domain[i])
+                    ops[i] = ZeroOperator(self.domain[i], self.range[index])
 
             return ReductionOperator(*ops)
 
